@@ -118,6 +118,9 @@ class C14(Case):
                     live.append(D(w=nxt()))
                 elif op == "C_E":
                     live.append(E(v=nxt()))
+                if op.startswith("C_") and not isinstance(live[-1], CLASSES[op[2]]):
+                    bad.append([t, op, "construction outside every block did not build an instance", type(live[-1]).__name__])
+                    break
                 elif op == "SYM_EXC":
                     # a symbolic block left through a (handled) exception, with a symbolic construction inside
                     try:
